@@ -192,6 +192,19 @@ pub fn run_c01(out: &mut Out, rng: &mut Rng, thorough: bool, only: Option<&str>)
         ] {
             s.whole(&periodic(&pat, n));
         }
+        // 0..3 arbitrary bytes followed by a long run of one byte (and a run in the middle)
+        for lead in 0..4usize {
+            let mut d = rng.bytes(lead);
+            let fill = rng.byte();
+            let run1 = rng.range(33, 90) as usize;
+            d.extend(std::iter::repeat(fill).take(run1));
+            s.whole(&d);
+            let mid = rng.range(1, 20) as usize;
+            d.extend(rng.bytes(mid));
+            let run2 = rng.range(33, 70) as usize;
+            d.extend(std::iter::repeat(fill ^ 0x5a).take(run2));
+            s.whole(&d);
+        }
         // low-entropy inputs (few distinct byte values -> equal quartiles, sparse buckets)
         for k in [2u64, 3, 4, 6, 10] {
             let n = rng.range(50, 400) as usize;
@@ -489,6 +502,13 @@ pub fn run_c10(out: &mut Out, rng: &mut Rng, thorough: bool, only: Option<&str>)
         for (j, len) in [c[2] - 5, c[2] - 4, c[2] - 3, c[2], 0xffff_fff0, 0xffff_fffb, 0xffff_fffc].into_iter().enumerate() {
             let mut st = craft_state(*v, rng, j);
             st.len = len;
+            s.inject(1, &st);
+            s.fin(1);
+        }
+        // accepted inputs with huge counters: a permissive flag must not change their hash
+        for j in 0..(if thorough { 36 } else { 9 }) {
+            let mut st = craft_state(*v, rng, j);
+            st.len = *rng.pick(&[1000u32, 16_777_216, 0x7fff_fffc, 4_224_281_212]);
             s.inject(1, &st);
             s.fin(1);
         }
